@@ -21,6 +21,11 @@ Finger(r) ==
         ELSE (IF r.byname[1] # ByName(w, w.p1) THEN {<<"C12", "precedence", "enum-effect-M1", r.id>>} ELSE {})
              \cup (IF r.byname[2] # ByName(w, w.p2)
                    THEN {<<"C12", "sibling", IF DevHelperOfSibling(w) /\ r.byname[2] THEN "generated-helper-of-sibling-used-despite-enum-no" ELSE "enum-effect-M2", r.id>>} ELSE {}))
+  ELSE IF w.kind = "emptypath" THEN
+       (IF r.gen # "ok" THEN {<<"C12", "valid-rejected", "emptypath-witness", r.id>>}
+        ELSE IF ~r.compiles THEN {<<"C01", "does-not-compile", "witness", r.id>>}
+        ELSE (IF "wrap-pkg" \notin Rng(r.imports) THEN {<<"C18", "imports-differ-from-needed", "wrap-package-missing", r.id>>} ELSE {})
+             \cup (IF r.msg1 # "path:|boom" THEN {<<"C07", "wrong-location-path", "wrap-not-applied-for-empty-path", r.id>>} ELSE {}))
   ELSE IF w.kind = "ctxregex" THEN
        (IF r.gen # "ok" /\ RegexOK(w) THEN {<<"C12", "valid-rejected", "ctxregex-witness", r.id>>}
         ELSE IF r.gen = "ok" /\ ~RegexOK(w) THEN {<<"C12", "precedence", "ctxregex-not-in-effect", r.id>>}
